@@ -157,6 +157,8 @@ def run_family(name, scenario, build, jobs=8, known=None, twin_merge=None, keep=
         fr.unspec += res["unspec"]
         fr.lostskip += res["lostskip"]
         fr.decoded += res["decoded"]
+        if res.get("generr", 0):
+            raise ToolError("family %s: %d line(s) labelled removable by the generator are not removable per the specification" % (name, res["generr"]))
         fr.states += res["states"]
         for k, v in res["class"].items():
             fr.classes[k] = fr.classes.get(k, 0) + v
